@@ -165,6 +165,9 @@ class Unit:
                 ra, oa = s.run_native(s.exe_real, h, ins, True)
                 rb, ob = s.run_native(s.exe_gen, h, ins, True)
                 if ra == 77 and rb == 77: continue
+                # a trap of an environment stub (container capacity exceeded, library abort): the real build dies of the trap
+                # instruction, the translation reports it - same event, nothing to compare; CBMC reports such a path as env:trap
+                if ra < 0 and 'LL2C-FAIL env:trap' in ob: continue
                 cnt += 1
                 if ra != rb or oa != ob:
                     raise VfError('TRANSLATOR MISMATCH %s be%s harness %d inputs %s\n--- real\n%s\n--- gen\n%s' % (s.name, s.be, h, ins, oa, ob))
@@ -190,7 +193,10 @@ def parse_cbmc(rc, out, t):
     if m: res['solver_s'] = float(m.group(1))
     res['nprops'] = len(re.findall(r': (?:SUCCESS|FAILURE)$', out, re.M))
     if 'TIMEOUT' in out and rc == -9: res['verdict'] = 'timeout'; return res
-    if re.search(r'PARSING ERROR|CONVERSION ERROR|\(error|Out of memory|std::bad_alloc', out): res['verdict'] = 'error'; return res
+    # memory exhaustion (RLIMIT_AS) is a resource limit like the time budget: the next strategy of the chain is tried
+    if re.search(r'Out of memory|std::bad_alloc', out): res['verdict'] = 'timeout'; res['resource'] = 'memory'; return res
+    if re.search(r'PARSING ERROR|CONVERSION ERROR|\(error|Usage error|file .* not found', out): res['verdict'] = 'error'; return res
+    if 'VERIFICATION' not in out and 'Starting Bounded Model Checking' in out: res['verdict'] = 'timeout'; res['resource'] = 'died (memory limit)'; return res
     for m in re.finditer(r'^\[([^\]]+)\] (?:line \d+ )?(.*): FAILURE$', out, re.M):
         res['failed'].append((m.group(1), m.group(2)))
     if 'VERIFICATION SUCCESSFUL' in out: res['verdict'] = 'success'
